@@ -115,11 +115,6 @@ def object_level(ctx, spec, name, rep, objs, which, payload):
             if union != set(range(len(union))):
                 ctx.violation('faithful', 'compact.gaps',
                               f'{spec} compact {which}: values used {sorted(union)} are not consecutive from zero', 'obj_case', payload)
-            ok, space = call_real(lambda: rep.space)
-            if ok and int(space['item'].upper_bound.max()) != len(union) - 1:
-                ctx.violation('faithful', 'compact.bound_not_tight',
-                              f'{spec} compact {which}: upper bound {int(space["item"].upper_bound.max())} but {len(union)} values are used',
-                              'obj_case', payload)
     return encs
 
 
